@@ -60,6 +60,7 @@ def run(ctx):
         R.violation("ANCHOR", "missing|" + FN, "anchor function %s not found" % FN, kind="ANCHOR-MISSING")
         return
     eng = Engine(F)
+    eng.key_all = True
     outs = eng.call_path(FN, eng.symbolic_args(b))
     i_ti, i_fp, i_val = field_index(F, "dlt::Argument", "type_info"), field_index(F, "dlt::Argument", "fixed_point"), field_index(F, "dlt::Argument", "value")
     i_kind = field_index(F, "dlt::TypeInfo", "kind")
